@@ -6,29 +6,49 @@
 [P]  CircuitDAG._noisy_gates / assign_noise, MonteCarloNoise._noisy_gates: fresh ops, original ops (noise fields) not written.
 [P]  TimeReversedSolver.__init__: REFUTED for graph / density-matrix targets - converts the caller's target in place
      (known finding T1, replayed natively); discharged for stabilizer targets.
-[B-only] rewrite clauses (copy / unwrap_nodes / remove_identity / group_one_qubit_gates preserve the compiled state), solver
-     .solve() frames, interleavings.
+[P]  rewrite clauses on the wire view (contracts/dag_rewrites.py; REAL remove_identity / unwrap_nodes / group_one_qubit_gates on symbolic
+     graph fragments): remove_identity unsplices every listed Identity node and leaves no Identity; unwrap_nodes replaces a wrapper
+     [g1..gk] in place by gk, ..., g1 (application order); group_one_qubit_gates turns every maximal run of one-qubit gate nodes into ONE
+     wrapper whose unwrap() is the application sequence of the run - per wire the elementary gates in application order are unchanged.
+     Whole function for 0-3 listed nodes / runs of up to 4 nodes + induction steps of every loop (loop rule L-snapshot with its side
+     condition "the iterated list is not written by the body" as an obligation; lists are iterated LIVE as CPython does).
+[F]  the same three rewrites evaluated natively on the enumerated shapes (exact comparison of sequence(unwrapped=True) per wire).
+[B-only] that an unchanged gate sequence compiles to the same state (C01 + C20), copy, assign_noise(empty map), solver .solve() frames,
+     interleavings.
 """
 from __future__ import annotations
 
 from pyvc.driver import run_tasks, merge
-from contracts import frames as F, metrics as M, compile_loop as CL
+from contracts import frames as F, metrics as M, compile_loop as CL, dag_rewrites as RW, metrics_emit as ME
 
 
 def deductive(tier="quick", seed=0):
     d = run_tasks(M.count_tasks() + F.noisy_gates_tasks() + F.mc_noisy_gates_tasks() + CL.tasks() + F.trs_tasks()
-                  + F.assign_noise_tasks() + M.dispatch_tasks())
-    can = run_tasks(F.canary_tasks() + M.frame_canary_tasks())
+                  + F.assign_noise_tasks() + M.dispatch_tasks() + RW.tasks() + ME.tasks())
+    d.obligations.extend(RW.wire_lemmas() + RW.native_cross_check())
+    can = run_tasks(F.canary_tasks() + M.frame_canary_tasks() + RW.canary_tasks())
     d.errors.extend(can.errors)
     d.canaries = M.canary_summary(can)
-    d.inlined = sorted(M.INLINE | CL.CS.INLINE)
+    d.inlined = sorted(M.INLINE | CL.CS.INLINE | RW.INLINE)
     d.trusted_base += [
         "[A] copy.deepcopy = fresh equal object graph (S7); CircuitDAG._slim_seq returns the circuit's own operation objects",
         "[A] frame checks see writes through attribute / item assignment and list, dict, set mutators of interpreted code; "
         "recorded (abstract) callees are classified as mutators / readers by name (contracts/metrics.py MUTATORS)",
-        "[B-only] rewrite clauses: copy, unwrap_nodes, remove_identity, group_one_qubit_gates, assign_noise(empty map) preserve "
-        "the compiled state (needs the wire view, C12/C20); solver.solve() frames; histories of <= 3 calls: bounded/C13.py",
-        "[B-only] CircuitMaxEmit*Depth.evaluate, Metrics.evaluate, GraphMetric.evaluate frames",
+        "[WF] rewrite tasks assume the representation invariant of C12 on the fragment: one incoming / outgoing edge per wire of an "
+        "operation node, distinct node ids <= _node_id, node_dict[K] lists exactly the nodes labelled K once (remove_identity / "
+        "unwrap_nodes FIND their nodes through node_dict)",
+        "[A] networkx MultiDiGraph primitives on an explicit fragment (pyvc/symgraph.py); [S-fmt] f-string formatting of (type, register) "
+        "is injective; `for x in <list>` = CPython's index-based list iterator (contracts/dag_rewrites.live_list_loop)",
+        "[A-list] induction steps: index lists are R0 y1 R1 x R2 y2 R3 with two representative other members y1, y2 (possibly adjacent "
+        "to x on its wire) and abstract segments R for any number of further members; list.remove(v) deletes the first element equal "
+        "to v, skips / keeps all others in order",
+        "[A] OneQubitGateWrapper built from a gate list with an abstract prefix (group step tasks only): holds the very list passed "
+        "(C20's task on the real constructor); all other wrappers go through the REAL constructor and the REAL unwrap()",
+        "[B-only] group_one_qubit_gates: the loop over node_dict['Output'] for more than 2 wires (each iteration touches its own wire "
+        "only: 2-wire task); that an unchanged per-wire gate sequence compiles to the same state (C01 + C20); copy, "
+        "assign_noise(empty map); solver.solve() frames; histories of <= 3 calls: bounded/C13.py",
+        "[B-only] Metrics.evaluate, GraphMetric.evaluate frames; CircuitMaxEmit*Depth.evaluate frames for more than 3 emitters "
+        "(1-3 emitters: contracts/metrics_emit.py)",
     ]
     d.not_applicable_clauses += ["'repeating a deterministic compile returns the same state' follows from the compile frame "
                                  "clause + C01 (mode 0/1); not a separate obligation"]
